@@ -16,7 +16,8 @@ from .common import attr, var
 LEVEL_TEXT = ('Static decision of the structural necessary conditions: no nondeterminism source reaches the trial '
               'sequence (the only one on the search path, the wall clock, flows into solvingTime only); the body of '
               'the iteration loop carries no local state from one trip to the next, so k trips in one call equal k '
-              'calls of one trip; DoGlobalIteration never consults the stop routine; the stop routine writes nothing '
+              'calls of one trip; DoGlobalIteration never consults the stop routine; the solve driver changes search '
+              'state only through the iteration call; the stop routine writes nothing '
               'but its own flag, which nobody reads; the first-iteration flag has one writer; accuracy and counters '
               'are monotone and the parameters read-only, so a finished solver stays finished and - with the '
               'pre-tested loop - a second Solve performs no trial.')
